@@ -13,58 +13,70 @@ CONSTANTS C          \* clients, e.g. {1, 2, 3}
 
 VARIABLES lock,      \* context.db_lock
           has,       \* [C -> BOOLEAN]   Worker.__has_lock
-          ph,        \* [C -> "new" | "asked" | "closed"]   connection phase (closed: connection lost or closed by server)
+          req,       \* [C -> BOOLEAN]   the client asked for the lock on this connection (its looping call was started)
+          ph,        \* [C -> "open" | "closing" | "closed"]   connection phase
+                     \*    closing: the server answered a release and called loseConnection(); connectionLost
+                     \*    reaches the protocol in a LATER reactor iteration -- other clients' polls run in between
           stopped,   \* [C -> BOOLEAN]   Worker.__looping_call_stopped
           told       \* history of THIS step: set of [c, msg], msg in {"granted", "busy", "released", "notheld"}
 
-vars == <<lock, has, ph, stopped, told>>
+vars == <<lock, has, req, ph, stopped, told>>
 
-Init == /\ lock = FALSE /\ has = [c \in C |-> FALSE] /\ ph = [c \in C |-> "new"]
+Init == /\ lock = FALSE /\ has = [c \in C |-> FALSE] /\ req = [c \in C |-> FALSE] /\ ph = [c \in C |-> "open"]
         /\ stopped = [c \in C |-> FALSE] /\ told = {}
 
-(* Worker._do_acquire for connection c (the caller guarantees the loop is running) *)
+(* Worker._do_acquire for connection c; what it writes to a connection that is already closing reaches nobody *)
+Tell(c, m) == IF ph[c] = "open" THEN {[c |-> c, msg |-> m]} ELSE {}
 DoAcquire(c) ==
     IF stopped[c] \/ ph[c] = "closed"
     THEN /\ told' = {} /\ UNCHANGED <<lock, has, stopped>>
     ELSE IF ~lock
          THEN /\ lock' = TRUE /\ has' = [has EXCEPT ![c] = TRUE] /\ stopped' = [stopped EXCEPT ![c] = TRUE]
-              /\ told' = {[c |-> c, msg |-> "granted"]}
-         ELSE /\ told' = {[c |-> c, msg |-> "busy"]} /\ UNCHANGED <<lock, has, stopped>>
+              /\ told' = Tell(c, "granted")
+         ELSE /\ told' = Tell(c, "busy") /\ UNCHANGED <<lock, has, stopped>>
 
 Request(c) ==       \* COMMAND(acquire): LoopingCall.start(3) runs the first poll at once
-    /\ ph[c] = "new"
-    /\ ph' = [ph EXCEPT ![c] = "asked"]
-    /\ IF ~lock
-       THEN /\ lock' = TRUE /\ has' = [has EXCEPT ![c] = TRUE] /\ stopped' = [stopped EXCEPT ![c] = TRUE]
-            /\ told' = {[c |-> c, msg |-> "granted"]}
-       ELSE /\ told' = {[c |-> c, msg |-> "busy"]} /\ UNCHANGED <<lock, has, stopped>>
-
-Poll(c) ==          \* a later tick of c's looping call (it keeps ticking for a while after being flagged stopped)
-    /\ ph[c] # "new"
+    /\ ph[c] = "open" /\ ~req[c]
+    /\ req' = [req EXCEPT ![c] = TRUE]
     /\ DoAcquire(c)
     /\ UNCHANGED ph
 
+Poll(c) ==          \* a later tick of c's looping call (it ticks until connectionLost, and a while after being flagged stopped)
+    /\ req[c]
+    /\ DoAcquire(c)
+    /\ UNCHANGED <<ph, req>>
+
 Release(c) ==       \* COMMAND(release) on a live connection: answer, then the server closes the connection
-    /\ ph[c] # "closed"
+    /\ ph[c] = "open"
+    /\ IF has[c]
+       THEN /\ lock' = FALSE /\ has' = [has EXCEPT ![c] = FALSE] /\ told' = {[c |-> c, msg |-> "released"]}
+       ELSE /\ told' = {[c |-> c, msg |-> "notheld"]} /\ UNCHANGED <<lock, has>>
+    /\ ph' = [ph EXCEPT ![c] = "closing"]
+    /\ UNCHANGED <<stopped, req>>
+
+ReleaseClose(c) ==  \* Release and the connectionLost that follows, seen as one step (the blocking client closes its socket at once)
+    /\ ph[c] = "open"
     /\ IF has[c]
        THEN /\ lock' = FALSE /\ has' = [has EXCEPT ![c] = FALSE] /\ told' = {[c |-> c, msg |-> "released"]}
        ELSE /\ told' = {[c |-> c, msg |-> "notheld"]} /\ UNCHANGED <<lock, has>>
     /\ ph' = [ph EXCEPT ![c] = "closed"]
-    /\ stopped' = [stopped EXCEPT ![c] = (ph[c] = "asked") \/ stopped[c]]
+    /\ stopped' = [stopped EXCEPT ![c] = req[c] \/ stopped[c]]
+    /\ UNCHANGED req
 
-Disconnect(c) ==    \* connectionLost at any point
+Disconnect(c) ==    \* connectionLost: the client went away at any point, or the close started by Release completes
     /\ ph[c] # "closed"
     /\ ph' = [ph EXCEPT ![c] = "closed"]
     /\ IF has[c] THEN lock' = FALSE /\ has' = [has EXCEPT ![c] = FALSE] ELSE UNCHANGED <<lock, has>>
-    /\ stopped' = [stopped EXCEPT ![c] = (ph[c] = "asked") \/ stopped[c]]
+    /\ stopped' = [stopped EXCEPT ![c] = req[c] \/ stopped[c]]
     /\ told' = {}
+    /\ UNCHANGED req
 
 Next == \E c \in C : Request(c) \/ Poll(c) \/ Release(c) \/ Disconnect(c)
 Spec == Init /\ [][Next]_vars
 
-Waiting(c) == ph[c] = "asked" /\ ~has[c] /\ ~stopped[c]
+Waiting(c) == req[c] /\ ph[c] = "open" /\ ~has[c] /\ ~stopped[c]
 (* fairness for NoStarve: every waiter keeps polling; holders eventually release or die *)
-FairSpec == Spec /\ \A c \in C : WF_vars(Poll(c) /\ Waiting(c)) /\ WF_vars((Release(c) \/ Disconnect(c)) /\ has[c])
+FairSpec == Spec /\ \A c \in C : WF_vars(Poll(c) /\ Waiting(c)) /\ WF_vars((Release(c) \/ Disconnect(c)) /\ has[c]) /\ WF_vars(Disconnect(c) /\ ph[c] = "closing")
 
 -----------------------------------------------------------------------------
 (* PROPERTY LEVEL (C13) *)
@@ -77,6 +89,8 @@ CrashFree_Step ==
         /\ ~has'[c]
         /\ (has[c] => ~lock')
 GoneNeverGranted_Step == \A m \in told' : m.msg = "granted" => ph'[m.c] # "closed"
+(* a released lock stays released: nothing but a grant to a polling client takes or frees it afterwards *)
+FreedOnlyByHolder_Step == \A c \in C : (has[c] /\ ~has'[c]) => (ph[c] # ph'[c])
 GrantNext_Step ==       \* whenever the lock is free a waiting client is granted it at its next poll
     \A c \in C : (Waiting(c) /\ ~lock /\ told' # {} /\ \E m \in told' : m.c = c /\ m.msg \in {"granted", "busy"}) =>
         (has'[c] /\ \E m \in told' : m.c = c /\ m.msg = "granted")
@@ -88,6 +102,7 @@ C13_CrashFree        == [][CrashFree_Step]_vars
 C13_GoneNeverGranted == [][GoneNeverGranted_Step]_vars
 C13_GrantNext        == [][GrantNext_Step]_vars
 C13_OnlyHolderFrees  == [][OnlyHolderFrees_Step]_vars
+C13_FreedOnlyByHolder == [][FreedOnlyByHolder_Step]_vars
 (* no waiter starves once holders release or die -- under FairSpec some waiter always gets through *)
 C13_NoStarve == \A c \in C : Waiting(c) ~> (has[c] \/ ph[c] = "closed")
 C13_LockFreed == \A c \in C : has[c] ~> ~has[c]
